@@ -1,0 +1,87 @@
+//go:build verif
+
+// Machine-checked contracts for package generate (applying an adjustment to an OCI spec,
+// property C13).  Comment-only file, compiled only with the build tag "verif"; read by
+// /verif/bin/nriverif.  The setters of the embedded runtime-tools generator that have no
+// loops are executed from their real bodies; see /verif/DESIGN.md.
+
+package generate
+
+//@ pure cfg(g *Generator) = g.Generator.Config
+// sections that already exist are updated in place, never replaced
+//@ pure cfgKept(g *Generator) = (old(cfg(g)) != nil ==> cfg(g) == old(cfg(g)))
+//@ pure linuxKept(g *Generator) = cfgKept(g) && (old(cfg(g).Linux) != nil ==> cfg(g).Linux == old(cfg(g).Linux))
+//@ pure processKept(g *Generator) = cfgKept(g) && (old(cfg(g).Process) != nil ==> cfg(g).Process == old(cfg(g).Process))
+
+//@ func Generator.AdjustCgroupsPath
+//@   props C13
+//@   requires g != nil && g.Generator != nil
+//@   modifies g.Generator.Config, g.Generator.Config.Linux, g.Generator.Config.Linux.CgroupsPath
+//@   ensures [set]  path != "" ==> cfg(g) != nil && cfg(g).Linux != nil && cfg(g).Linux.CgroupsPath == path
+//@   ensures [noop] path == "" ==> cfg(g) == old(cfg(g)) && cfg(g).Linux == old(cfg(g).Linux) && cfg(g).Linux.CgroupsPath == old(cfg(g).Linux.CgroupsPath)
+//@   ensures [kept] linuxKept(g)
+
+//@ func Generator.AdjustOomScoreAdj
+//@   props C13
+//@   requires g != nil && g.Generator != nil
+//@   modifies g.Generator.Config, g.Generator.Config.Process, g.Generator.Config.Process.OOMScoreAdj
+//@   ensures [set]  score != nil ==> cfg(g) != nil && cfg(g).Process != nil && cfg(g).Process.OOMScoreAdj != nil && deref(cfg(g).Process.OOMScoreAdj) == int(score.Value)
+//@   ensures [noop] score == nil ==> cfg(g) == old(cfg(g)) && cfg(g).Process == old(cfg(g).Process) && cfg(g).Process.OOMScoreAdj == old(cfg(g).Process.OOMScoreAdj)
+//@   ensures [kept] processKept(g)
+
+//@ func Generator.AdjustArgs
+//@   props C13
+//@   requires g != nil && g.Generator != nil
+//@   modifies g.Generator.Config, g.Generator.Config.Process, g.Generator.Config.Process.Args
+//@   ensures [set]  len(args) != 0 ==> cfg(g) != nil && cfg(g).Process != nil && cfg(g).Process.Args == args
+//@   ensures [noop] len(args) == 0 ==> cfg(g) == old(cfg(g)) && cfg(g).Process == old(cfg(g).Process) && cfg(g).Process.Args == old(cfg(g).Process.Args)
+//@   ensures [kept] processKept(g)
+
+// rlimits are appended in the order given (nil entries skipped); the spec must have a process section
+//@ func Generator.AdjustRlimits
+//@   props C13
+//@   requires g != nil && g.Generator != nil && cfg(g) != nil && cfg(g).Process != nil
+//@   modifies g.Generator.Config.Process.Rlimits, elems(g.Generator.Config.Process.Rlimits)
+//@   ensures [ok]   result == nil
+//@   ensures [pre]  len(cfg(g).Process.Rlimits) >= old(len(cfg(g).Process.Rlimits)) && (forall i int :: 0 <= i && i < old(len(cfg(g).Process.Rlimits)) ==> cfg(g).Process.Rlimits[i] == old(cfg(g).Process.Rlimits[i]))
+//@   ensures [all]  (forall i int :: 0 <= i && i < len(rlimits) ==> rlimits[i] != nil) ==> len(cfg(g).Process.Rlimits) == old(len(cfg(g).Process.Rlimits)) + len(rlimits)
+//@                  && (forall i int :: 0 <= i && i < len(rlimits) ==> cfg(g).Process.Rlimits[old(len(cfg(g).Process.Rlimits)) + i].Type == rlimits[i].Type
+//@                      && cfg(g).Process.Rlimits[old(len(cfg(g).Process.Rlimits)) + i].Hard == rlimits[i].Hard && cfg(g).Process.Rlimits[old(len(cfg(g).Process.Rlimits)) + i].Soft == rlimits[i].Soft)
+//@   loop 1 invariant 0 <= idx + 1 && idx + 1 <= len(rlimits) && cfg(g) == old(cfg(g)) && cfg(g).Process == old(cfg(g).Process)
+//@   loop 1 invariant len(cfg(g).Process.Rlimits) >= old(len(cfg(g).Process.Rlimits)) && len(cfg(g).Process.Rlimits) <= old(len(cfg(g).Process.Rlimits)) + idx + 1
+//@   loop 1 invariant forall i int :: 0 <= i && i < old(len(cfg(g).Process.Rlimits)) ==> cfg(g).Process.Rlimits[i] == old(cfg(g).Process.Rlimits[i])
+//@   loop 1 invariant (forall i int :: 0 <= i && i <= idx ==> rlimits[i] != nil) ==> len(cfg(g).Process.Rlimits) == old(len(cfg(g).Process.Rlimits)) + idx + 1
+//@                  && (forall i int :: 0 <= i && i <= idx ==> cfg(g).Process.Rlimits[old(len(cfg(g).Process.Rlimits)) + i].Type == rlimits[i].Type
+//@                      && cfg(g).Process.Rlimits[old(len(cfg(g).Process.Rlimits)) + i].Hard == rlimits[i].Hard && cfg(g).Process.Rlimits[old(len(cfg(g).Process.Rlimits)) + i].Soft == rlimits[i].Soft)
+//@   loop 1 invariant base(cfg(g).Process.Rlimits) == old(base(cfg(g).Process.Rlimits)) || fresh(cfg(g).Process.Rlimits)
+
+// -- mount order: by number of path components of the cleaned destination, ties by destination
+//@ pure mparts(d string) = strcount(pathclean(d), "/")
+//@ pure mless(a string, b string) = mparts(a) < mparts(b) || (mparts(a) == mparts(b) && a < b)
+//@ func orderedMounts.parts
+//@   props C13
+//@   requires 0 <= i && i < len(m)
+//@   ensures result == mparts(m[i].Destination)
+//@ func orderedMounts.Less
+//@   props C13
+//@   requires 0 <= i && i < len(m) && 0 <= j && j < len(m)
+//@   ensures result == mless(m[i].Destination, m[j].Destination)
+// the comparator is a strict order, so "sorted" fixes the relative position of any two
+// mounts with different destinations, in particular of a directory and what is below it
+//@ lemma mlessStrict
+//@   props C13
+//@   vars a string, b string
+//@   hyp  true
+//@   goal !(mless(a, b) && mless(b, a)) && !mless(a, a)
+//@ lemma mlessTotal
+//@   props C13
+//@   vars a string, b string
+//@   hyp  a != b
+//@   goal mless(a, b) || mless(b, a)
+
+//@ func Generator.sortMounts
+//@   props C13
+//@   requires g != nil && g.Generator != nil && cfg(g) != nil
+//@   modifies g.Generator.Config.Mounts, elems(g.Generator.Config.Mounts)
+//@   ensures [len]    len(cfg(g).Mounts) == old(len(cfg(g).Mounts))
+//@   ensures [sorted] forall i int :: forall j int :: 0 <= i && i < j && j < len(cfg(g).Mounts) ==> !mless(cfg(g).Mounts[j].Destination, cfg(g).Mounts[i].Destination)
